@@ -186,7 +186,8 @@ fn v6_forms(a: &str) -> Vec<String> {
 }
 
 impl Server {
-    /// `bind_ip`: "127.0.0.1" or "::1".  `variant` picks textual forms in the generated files.
+    /// `bind_ip`: "127.0.0.1", "::1" or "::" (dual-stack: clients then connect to 127.0.0.1 and are seen by the
+    /// server as ::ffff:127.x.y.z).  `variant` picks textual forms in the generated files.
     fn start(bin: &str, base: &Path, name: &str, bind_ip: &str, mode: &str, list: &[String], cache: bool, variant: usize) -> Result<Server, String> {
         let dir = base.join(name);
         let _ = fs::remove_dir_all(&dir);
@@ -225,7 +226,7 @@ impl Server {
                 });
             }
             let mut child = cmd.spawn().map_err(|e| format!("cannot start {}: {}", bin, e))?;
-            let addr = SocketAddr::new(ip, port);
+            let addr = if bind_ip == "::" { SocketAddr::new(IpAddr::V4(Ipv4Addr::LOCALHOST), port) } else { SocketAddr::new(ip, port) };
             let t0 = Instant::now();
             let mut up = false;
             while t0.elapsed() < Duration::from_secs(10) {
@@ -239,6 +240,11 @@ impl Server {
                 std::thread::sleep(Duration::from_millis(5));
             }
             if up {
+                // the port was free when it was chosen, but if our process has exited somebody else answers there
+                std::thread::sleep(Duration::from_millis(15));
+                if let Ok(Some(_)) = child.try_wait() {
+                    continue;
+                }
                 return Ok(Server { child, addr, dir, cache, upstream, ver: 0, fresh: 0, warmed: BTreeMap::new() });
             }
             let _ = child.kill();
@@ -487,6 +493,11 @@ fn one_shot(srv: &mut Server, src: IpAddr, rt: &str, uri: &str, xff: Option<&str
     last
 }
 
+/// observations that say nothing about the server's decision (tooling / timing)
+fn inconclusive(res: &str) -> bool {
+    res.starts_with("Other:connect") || res == "Other:no-bytes-WouldBlock" || res == "Other:no-bytes-TimedOut"
+}
+
 // ------------------------------------------------------------------------------------------------
 // environment
 // ------------------------------------------------------------------------------------------------
@@ -513,6 +524,27 @@ fn other_v6() -> Option<Ipv6Addr> {
         }
     }
     None
+}
+
+/// a listener on [::] accepts an IPv4 client and reports it in IPv4-mapped form
+fn dual_stack_ok() -> bool {
+    let l = match TcpListener::bind("[::]:0") {
+        Ok(l) => l,
+        Err(_) => return false,
+    };
+    let port = l.local_addr().unwrap().port();
+    let dst = SocketAddr::new(IpAddr::V4(Ipv4Addr::LOCALHOST), port);
+    let c = match connect_from("127.0.0.2".parse().unwrap(), dst, Duration::from_secs(2)) {
+        Ok(c) => c,
+        Err(_) => return false,
+    };
+    l.set_nonblocking(false).ok();
+    let r = match l.accept() {
+        Ok((_, peer)) => matches!(peer.ip(), IpAddr::V6(a) if a.to_ipv4_mapped() == Some(Ipv4Addr::new(127, 0, 0, 2))),
+        Err(_) => false,
+    };
+    drop(c);
+    r
 }
 
 fn v4_source_ok(a: &str) -> bool {
@@ -552,6 +584,8 @@ struct Stats {
     servers: u64,
     mismatches: u64,
     skipped_no_v6: u64,
+    skipped_no_dual: u64,
+    rows_dual: u64,
     samples: Vec<Value>,
     first: Vec<Value>,
 }
@@ -573,9 +607,10 @@ fn parse_es(row: &Value) -> Vec<(String, bool, bool)> {
     }).unwrap_or_default()
 }
 
-fn run_group(bin: &str, base: &Path, gi: usize, g: &Group, st: &mut Stats, have_v6: bool, alt_v6: Option<Ipv6Addr>) -> Result<(), String> {
+fn run_group(bin: &str, base: &Path, gi: usize, g: &Group, st: &mut Stats, have_v6: bool, have_dual: bool, alt_v6: Option<Ipv6Addr>) -> Result<(), String> {
     let mut counter: usize = gi * 7;
-    for fam_v6 in [false, true] {
+    for (bind_ip, tag) in [("127.0.0.1", "v4"), ("::", "dual"), ("::1", "v6")] {
+        let fam_v6 = bind_ip == "::1";
         let lines: Vec<&Value> = g.lines.iter().filter(|l| l["peer"].as_str().unwrap_or("").contains(':') == fam_v6).collect();
         if lines.is_empty() {
             continue;
@@ -584,8 +619,11 @@ fn run_group(bin: &str, base: &Path, gi: usize, g: &Group, st: &mut Stats, have_
             st.skipped_no_v6 += lines.iter().map(|l| l["rows"].as_array().map(|r| r.len()).unwrap_or(0) as u64).sum::<u64>();
             continue;
         }
-        let bind_ip = if fam_v6 { "::1" } else { "127.0.0.1" };
-        let mut srv = Server::start(bin, base, &format!("g{}{}", gi, if fam_v6 { "v6" } else { "v4" }), bind_ip, &g.mode, &g.list, g.cache, gi)?;
+        if bind_ip == "::" && !have_dual {
+            st.skipped_no_dual += lines.iter().map(|l| l["rows"].as_array().map(|r| r.len()).unwrap_or(0) as u64).sum::<u64>();
+            continue;
+        }
+        let mut srv = Server::start(bin, base, &format!("g{}{}", gi, tag), bind_ip, &g.mode, &g.list, g.cache, gi)?;
         st.servers += 1;
         // warm targets (cache on): requested once by a client that is on no list
         if g.cache {
@@ -610,7 +648,7 @@ fn run_group(bin: &str, base: &Path, gi: usize, g: &Group, st: &mut Stats, have_
             let peer: IpAddr = peer_s.parse().map_err(|_| format!("bad peer {}", peer_s))?;
             let peer_listed = g.list.contains(&peer_s);
             for row in line["rows"].as_array().unwrap() {
-                st.rows += 1;
+                if bind_ip == "::" { st.rows_dual += 1 } else { st.rows += 1 }
                 let exp: Vec<String> = row["exp"].as_array().unwrap().iter().map(|x| x.as_str().unwrap().to_string()).collect();
                 let es = parse_es(row);
                 let present = row["p"].as_bool().unwrap_or(false);
@@ -644,7 +682,18 @@ fn run_group(bin: &str, base: &Path, gi: usize, g: &Group, st: &mut Stats, have_
                         };
                         let xff_text = if present { Some(render_xff(&es, counter)) } else { None };
                         let hits_before = srv.upstream.hits.load(Ordering::SeqCst);
-                        let (got, from_cache, detail) = one_shot(&mut srv, peer, rt, &uri, xff_text.as_deref(), counter);
+                        let (mut got, mut from_cache, mut detail) = one_shot(&mut srv, peer, rt, &uri, xff_text.as_deref(), counter);
+                        if inconclusive(&got) {
+                            // no verdict can be based on a failed connect or a read timeout: once more, then a tool error
+                            std::thread::sleep(Duration::from_millis(200));
+                            let again = one_shot(&mut srv, peer, rt, &uri, xff_text.as_deref(), counter);
+                            got = again.0;
+                            from_cache = again.1;
+                            detail = again.2;
+                            if inconclusive(&got) {
+                                return Err(format!("inconclusive observation {} ({}) for peer {} route {} on {}", got, detail, peer_s, rt, bind_ip));
+                            }
+                        }
                         if rt == "directory" && !warm && g.cache {
                             let _ = fs::remove_file(srv.dir.join("www").join(uri.trim_start_matches("/dir/")));
                         }
@@ -689,6 +738,10 @@ fn run_group(bin: &str, base: &Path, gi: usize, g: &Group, st: &mut Stats, have_
                             let mut dev = serde_json::Map::new();
                             if let Some(d) = row["dev"].as_object() {
                                 for (k, v) in d {
+                                    // the mapped-form deviation is only a candidate explanation on the dual-stack instance
+                                    if k == "MappedPeerUnmatched" && bind_ip != "::" {
+                                        continue;
+                                    }
                                     dev.insert(k.clone(), v[rt].clone());
                                 }
                             }
@@ -732,6 +785,7 @@ fn replay(bin: &str, base: &Path, threads: usize) {
         groups[gi].lines.push(v);
     }
     let have_v6 = v6_available();
+    let have_dual = dual_stack_ok();
     let alt_v6 = if have_v6 { other_v6().filter(|a| {
         // usable only if it can reach a listener on ::1
         TcpListener::bind("[::1]:0").ok().and_then(|l| connect_from(IpAddr::V6(*a), l.local_addr().unwrap(), Duration::from_secs(2)).ok()).is_some()
@@ -748,7 +802,7 @@ fn replay(bin: &str, base: &Path, threads: usize) {
                     None => break,
                 };
                 let mut st = Stats::default();
-                if let Err(e) = run_group(bin, base, gi, g, &mut st, have_v6, alt_v6) {
+                if let Err(e) = run_group(bin, base, gi, g, &mut st, have_v6, have_dual, alt_v6) {
                     errors.lock().unwrap().push(e);
                 }
                 let mut t = total.lock().unwrap();
@@ -771,6 +825,8 @@ fn replay(bin: &str, base: &Path, threads: usize) {
                 t.servers += st.servers;
                 t.mismatches += st.mismatches;
                 t.skipped_no_v6 += st.skipped_no_v6;
+                t.skipped_no_dual += st.skipped_no_dual;
+                t.rows_dual += st.rows_dual;
                 for s in st.samples {
                     if t.samples.len() < 8 {
                         t.samples.push(s);
@@ -796,7 +852,8 @@ fn replay(bin: &str, base: &Path, threads: usize) {
         "warm_requests": t.warm_requests, "cache_hits_observed": t.cache_hits_observed,
         "cold_served_from_cache": t.cold_served_from_cache, "warm_unavailable": t.warm_unavailable,
         "upstream_hits": t.upstream_hits, "upstream_expected": t.upstream_expected, "mismatches": t.mismatches,
-        "skipped_rows_no_ipv6": t.skipped_no_v6, "ipv6": have_v6, "alt_ipv6_for_warmup": alt_v6.map(|a| a.to_string()),
+        "skipped_rows_no_ipv6": t.skipped_no_v6, "ipv6": have_v6,
+        "rows_dual_stack": t.rows_dual, "skipped_rows_no_dual_stack": t.skipped_no_dual, "dual_stack": have_dual, "alt_ipv6_for_warmup": alt_v6.map(|a| a.to_string()),
         "errors": errs, "samples": t.samples}));
 }
 
@@ -804,8 +861,8 @@ fn replay(bin: &str, base: &Path, threads: usize) {
 // random sessions -> event log for Trace_Blacklist
 // ------------------------------------------------------------------------------------------------
 
-fn ev(kind: &str, mode: &str, list: &[String], cache: bool, peer: &str, present: bool, es: &Value, rt: &str, uri: &str, res: &str, from_cache: bool, n: usize) -> Value {
-    json!({"ev": kind, "mode": mode, "list": list, "cache": cache, "peer": peer, "present": present, "es": es,
+fn ev(kind: &str, dual: bool, mode: &str, list: &[String], cache: bool, peer: &str, present: bool, es: &Value, rt: &str, uri: &str, res: &str, from_cache: bool, n: usize) -> Value {
+    json!({"ev": kind, "dual": dual, "mode": mode, "list": list, "cache": cache, "peer": peer, "present": present, "es": es,
            "rt": rt, "uri": uri, "res": res, "fromCache": from_cache, "n": n})
 }
 
@@ -814,6 +871,7 @@ fn random(bin: &str, base: &Path, sessions: usize, conns: usize) {
     let universe = ["127.0.0.1", "127.0.0.2", "127.9.9.9", "127.200.1.1", "::1", "10.1.2.3", "192.0.2.55", "2001:db8::7"];
     let v4_peers = ["127.0.0.1", "127.0.0.2", "127.9.9.9", "127.200.1.1"];
     let have_v6 = v6_available();
+    let have_dual = dual_stack_ok();
     let empty = json!([]);
     let mut counter = 0usize;
     for si in 0..sessions {
@@ -845,13 +903,29 @@ fn random(bin: &str, base: &Path, sessions: usize, conns: usize) {
         } else {
             None
         };
-        // the two instances are two servers with the same configuration: each gets its own cfg event
-        for inst in 0..2 {
-            if inst == 1 && s6.is_none() {
+        let mut sd = if have_dual {
+            match Server::start(bin, base, &format!("r{}dual", si), "::", mode, &list, cache, si + 2) {
+                Ok(s) => Some(s),
+                Err(e) => {
+                    eprintln!("{}", e);
+                    std::process::exit(3)
+                }
+            }
+        } else {
+            None
+        };
+        // the instances are separate servers with the same configuration: each gets its own cfg event
+        for inst in 0..3 {
+            if (inst == 1 && s6.is_none()) || (inst == 2 && sd.is_none()) {
                 continue;
             }
-            out_line(&ev("cfg", mode, &list, cache, "", false, &empty, "", "", "", false, 0));
-            let srv: &mut Server = if inst == 0 { &mut s4 } else { s6.as_mut().unwrap() };
+            let dual = inst == 2;
+            out_line(&ev("cfg", dual, mode, &list, cache, "", false, &empty, "", "", "", false, 0));
+            let srv: &mut Server = match inst {
+                0 => &mut s4,
+                1 => s6.as_mut().unwrap(),
+                _ => sd.as_mut().unwrap(),
+            };
             let nconn = if inst == 0 { conns } else { conns / 3 + 1 };
             for _ in 0..nconn {
                 let peer_s: String = if inst == 1 {
@@ -869,7 +943,7 @@ fn random(bin: &str, base: &Path, sessions: usize, conns: usize) {
                         continue;
                     }
                 };
-                out_line(&ev("conn", mode, &list, cache, &peer_s, false, &empty, "", "", "", false, 0));
+                out_line(&ev("conn", dual, mode, &list, cache, &peer_s, false, &empty, "", "", "", false, 0));
                 let nreq = rng.range(1, 4);
                 let mut leftover = vec![];
                 for k in 0..nreq {
@@ -907,13 +981,17 @@ fn random(bin: &str, base: &Path, sessions: usize, conns: usize) {
                         read_response(&mut stream, &mut leftover, false)
                     };
                     let (res, fc) = classify(rt, &o, srv.ver);
-                    out_line(&ev("req", mode, &list, cache, &peer_s, present, &es_json, rt, &uri, &res, fc, k));
+                    if inconclusive(&res) {
+                        eprintln!("inconclusive observation {} for peer {} route {}", res, peer_s, rt);
+                        std::process::exit(3);
+                    }
+                    out_line(&ev("req", dual, mode, &list, cache, &peer_s, present, &es_json, rt, &uri, &res, fc, k));
                     if res != "Served" && res != "Forbidden403" {
                         break;
                     }
                 }
                 drop(stream);
-                out_line(&ev("close", mode, &list, cache, &peer_s, false, &empty, "", "", "", false, 0));
+                out_line(&ev("close", dual, mode, &list, cache, &peer_s, false, &empty, "", "", "", false, 0));
             }
         }
     }
@@ -934,7 +1012,7 @@ fn main() {
         }
         Some("probe") => {
             let v4: Vec<Value> = ["127.0.0.1", "127.0.0.2", "127.9.9.9", WARM_V4].iter().map(|x| json!({"addr": x, "ok": v4_source_ok(x)})).collect();
-            out_line(&json!({"probe": true, "v4_sources": v4, "ipv6_loopback": v6_available(), "other_ipv6": other_v6().map(|a| a.to_string()),
+            out_line(&json!({"probe": true, "v4_sources": v4, "ipv6_loopback": v6_available(), "dual_stack": dual_stack_ok(), "other_ipv6": other_v6().map(|a| a.to_string()),
                 "unspecified": Ipv4Addr::UNSPECIFIED.to_string()}));
         }
         _ => {
